@@ -201,7 +201,7 @@ pub fn replay(case: &Value, _kf: &KnownFindings) -> Result<(), Failure> {
     if case["kind"] == "arith" {
         return arith_one(case["last"].as_u64().map(|x| x as u32), case["wire"].as_u64().unwrap_or(0) as u16);
     }
-    let h = History::from_json(case);
+    let h = super::cross::case_history(case);
     let (_, recs) = run_history(&h).map_err(|e| Failure::new("harness", h.json(), e))?;
     judge(&h, &recs).map(|_| ())
 }
